@@ -27,8 +27,8 @@ fn plan(check: &str, tier: &str) -> (u64, f64) {
         "C08" => 15_000,
         "C03" => 8_000,
         "C09" => 5_500,
-        "C18" => 7_000,
-        "C20" => 3_500,
+        "C18" => 3_500,
+        "C20" => 3_000,
         "C10" => 2_500,
         "C11" => 2_000,
         "C06" => 1_500,
